@@ -43,6 +43,20 @@ CHECKS['C16'] = dict(
     note=TB + "leaf clone/deref/From<&[u8]> of core/alloc are faithful copies; equality of behaviour of a field-wise copy is by it being the same value.",
     design_ref='5/C16')
 
+CHECKS['C09'] = dict(
+    category='other',
+    technique='call-graph / dominance / derived-from rules over resolved MIR of 3 (quick) or 10 (thorough) target+feature configurations; canonical-MIR diff across cargo features',
+    text="Decides the wiring between backends, not their semantics: DISP (each public byte-search entry point reaches, "
+         "through every cfg arm and every ifunc member, exactly the searcher kind and method its name implies, with "
+         "needles/start/end forwarded), AVAIL-IS/AVAIL-CALL/CAP/IFUNC-AVAIL (a #[target_feature] routine is only "
+         "selected or called where the matching is_available() or a capability value established its ISA; "
+         "is_available() cannot be true without the features), FEAT-DIFF (no cargo-feature-dependent code on any "
+         "search path: canonical MIR equal across std/alloc/core up to a reasoned allow-list). Configurations that "
+         "a host test run never compiles (NEON, simd128, no-SSE2, big-endian, 32-bit) are analysed like the host. "
+         "Agreement of answers then follows from each backend meeting the specification (C01/C02/C07).",
+    note=TB + "per-backend semantics are C01/C02/C07; memmem agreement additionally rests on C03; vendor semantics of is_x86_feature_detected!.",
+    design_ref='5/C09')
+
 NOT_YET = "check not built yet (build in progress, see DESIGN.md section 8 build order)"
 NA = {}
 
